@@ -69,6 +69,9 @@ type Fn struct {
 	// provide this (reflect.MakeFunc) constructor with dig.LocationForPC(pc of declared function
 	// P<loc_pool>): error messages and CallbackInfo.Name then speak of main.P<loc_pool>
 	LocPool *int `json:"loc_pool"`
+	// pointer-typed value-group members produced by this function are nil pointers: values
+	// without identity (only their NUMBER can be observed; see the anonymous-values stream)
+	NilMembers bool `json:"nil_members"`
 }
 
 type Nested struct {
@@ -486,6 +489,8 @@ func lenAt(lens []int, slot int) int {
 	return 0
 }
 
+var nilMembersNow bool // set by body() around mkResult for functions with nil_members
+
 func mkResult(r Result, decorator bool, fn, exec int, lens []int, slot *int) reflect.Value {
 	switch r.K {
 	case "single":
@@ -498,7 +503,7 @@ func mkResult(r Result, decorator bool, fn, exec int, lens []int, slot *int) ref
 		if r.Flatten || decorator {
 			n := lenAt(lens, s)
 			sl := reflect.MakeSlice(groupSliceType(r.Ty, nsIf(r.NS, decorator)), 0, n)
-			if tyOf(r.Ty).Kind() == reflect.Ptr && !decorator && n > 1 && (fn+exec)%2 == 0 {
+			if tyOf(r.Ty).Kind() == reflect.Ptr && !decorator && n > 1 && (fn+exec)%2 == 0 && !nilMembersNow {
 				// the SAME pointer n times: group members are counted per grouped result, not per
 				// distinct value (the copies are told apart by their position, see readArgs)
 				one := mkValue(tyOf(r.Ty), &Prov{fn, exec, s, -1})
@@ -508,9 +513,16 @@ func mkResult(r Result, decorator bool, fn, exec int, lens []int, slot *int) ref
 				return sl
 			}
 			for i := 0; i < n; i++ {
+				if nilMembersNow && !decorator && tyOf(r.Ty).Kind() == reflect.Ptr {
+					sl = reflect.Append(sl, reflect.Zero(tyOf(r.Ty)))
+					continue
+				}
 				sl = reflect.Append(sl, mkValue(tyOf(r.Ty), &Prov{fn, exec, s, i}))
 			}
 			return sl
+		}
+		if nilMembersNow && tyOf(r.Ty).Kind() == reflect.Ptr {
+			return reflect.Zero(tyOf(r.Ty))
 		}
 		return mkValue(tyOf(r.Ty), &Prov{fn, exec, s, 0})
 	case "obj":
@@ -622,9 +634,11 @@ func (r *runner) body(f *Fn, role string, args []reflect.Value) []reflect.Value 
 		}
 		slot := 0
 		var res []reflect.Value
+		nilMembersNow = f.NilMembers
 		for _, rs := range f.Results {
 			res = append(res, mkResult(rs, dec, f.ID, e, lens, &slot))
 		}
+		nilMembersNow = false
 		if f.Err {
 			ev := reflect.Zero(errType)
 			if plan == "err" {
